@@ -11,6 +11,7 @@ import (
 	"math/rand/v2"
 	"os"
 	"strings"
+	"time"
 
 	"gitee.com/Trisia/gotlcp/dtlcp"
 	"gitee.com/Trisia/gotlcp/tlcp"
@@ -263,8 +264,34 @@ func c11Trivial(in c11Input) bool {
 	return g == 0 || p == 0 || len(in.Ops) < 3
 }
 
+// c11Guard runs f under a watchdog: a cache operation that never returns (a lock left held) must not hang the check.
+func c11Guard(d time.Duration, f func()) bool {
+	done := make(chan struct{})
+	go func() { defer close(done); f() }()
+	select {
+	case <-done:
+		return true
+	case <-time.After(d):
+		return false
+	}
+}
+
+// set once an operation hung: the cache code of this build leaves a lock held, the remaining cases would only wait
+var c11Hung bool
+
 func c11AddCase(out *emit.Out, scenario string, in c11Input) {
-	res, harm, what := c11Run(in)
+	if c11Hung {
+		return
+	}
+	var res []emit_opt
+	var harm int
+	var what string
+	if !c11Guard(10*time.Second, func() { res, harm, what = c11Run(in) }) {
+		c11Hung = true
+		out.Add(emit.Case{Scenario: scenario + "/" + in.Stack, Trivial: c11Trivial(in), Input: in, Direct: "hang",
+			Observed: map[string]interface{}{"hang": "an operation of this sequence never returned"}, Coq: c11Coq(in, nil, 0)})
+		return
+	}
 	obs := []interface{}{}
 	for _, r := range res {
 		if r.ok {
